@@ -34,10 +34,8 @@ class Uniform(Distribution):
             # probability (pdf) as 1 divided by the area, the convert 
             # to logpdf. Special case if scalar.
             diff = np.asarray(self.high) - np.asarray(self.low) # bounds may be given as lists
-            if diff.ndim > 0: 
-                v= np.prod(diff)
-            else:
-                v = diff**self.dim # scalar bounds are broadcast over all dim components
+            # scalar (or length-one) bounds are broadcast over all dim components
+            v = np.prod(np.broadcast_to(diff, (self.dim,)))
             return_val = np.log(1.0/v)
         return return_val
 
